@@ -253,11 +253,17 @@ def kkt(rng, tier):
         system = Sys(None, None, Ci, Di)
         Mx = torch.randn(n + m, n + m, dtype=torch.float64, generator=g)
         Qm = (Mx @ Mx.T + 0.5 * torch.eye(n + m, dtype=torch.float64)).unsqueeze(0); p = torch.randn(1, n + m, dtype=torch.float64, generator=g)
+        tv_cost = rng.random() < 0.5            # a cost that VARIES over the horizon: Q_t, p_t per step (shape (1, H, ., .)), e.g. a heavy terminal weight
+        if tv_cost:
+            Mt = torch.randn(H, n + m, n + m, dtype=torch.float64, generator=g)
+            Qm = (Mt @ Mt.mT + 0.5 * torch.eye(n + m, dtype=torch.float64)).unsqueeze(0) * (1 + 9 * torch.rand(1, H, 1, 1, dtype=torch.float64, generator=g))
+            p = torch.randn(1, H, n + m, dtype=torch.float64, generator=g)
+        Qs = [Qm[0, t] if tv_cost else Qm[0] for t in range(H)]; ps = [p[0, t] if tv_cost else p[0] for t in range(H)]
         x0 = torch.randn(1, n, dtype=torch.float64, generator=g)
         def cost_of(u):
             x = x0[0]; J = 0
             for t in range(H):
-                tau = torch.cat([x, u[t]]); J = J + 0.5 * tau @ Qm[0] @ tau + p[0] @ tau
+                tau = torch.cat([x, u[t]]); J = J + 0.5 * tau @ Qs[t] @ tau + ps[t] @ tau
                 x = As[t] @ x + Bs[t] @ u[t] + c1
             return J
         uref = torch.zeros(H, m, dtype=torch.float64, requires_grad=True)
@@ -267,7 +273,7 @@ def kkt(rng, tier):
         Jstar = float(cost_of(ustar))
         lqr = pp.module.LQR(system, Qm, p, H)
         for rep in range(2):                       # the second solve finds a stale time counter
-            un = None if rng.random() < 0.5 else torch.randn(1, H, m, dtype=torch.float64, generator=g)
+            un = None if rng.random() < 0.5 else torch.randn(1, H, m, dtype=torch.float64, generator=g) * rng.choice([1.0, 1.0, 1e3])
             try:
                 x, u, cost = lqr(x0, 1, un)
             except Exception as e:
@@ -275,7 +281,13 @@ def kkt(rng, tier):
             evals += 1
             Jr = float(cost_of(u[0].detach()))
             if abs(Jr - Jstar) > 1e-7 * (1 + abs(Jstar)) or abs(float(cost[0]) - Jr) > 1e-7 * (1 + abs(Jr)):
-                fails.append(dict(clause='lqr_optimal_and_cost_consistent', signature=f'ltv={ltv},rep={rep}', n=n, m=m, H=H, cost=float(cost[0]), true_cost_of_u=Jr, optimum=Jstar)); break
+                fails.append(dict(clause='lqr_optimal_and_cost_consistent', signature=f'ltv={ltv},rep={rep},time_varying_cost={tv_cost}', n=n, m=m, H=H, cost=float(cost[0]), true_cost_of_u=Jr, optimum=Jstar)); break
+            # the inputs themselves are the minimiser to float64 accuracy (the cost is flat to second order around it and cannot tell),
+            # whatever nominal trajectory - also a large one - was supplied
+            du_ = float((u[0].detach() - ustar).abs().max()) / (1 + float(ustar.abs().max()))
+            if du_ > 1e-8 * max(1.0, float(torch.linalg.cond(Hm)) * 1e-4):
+                fails.append(dict(clause='lqr_inputs_are_the_minimiser_to_working_precision', signature=f'ltv={ltv},rep={rep}', n=n, m=m, H=H, rel_err=du_,
+                                  nominal_scale=None if un is None else float(un.abs().max()))); break
         if k < 2: samples.append(dict(n=n, m=m, H=H, ltv=ltv, optimum=Jstar))
     # batches: every batch size 1..3 x state dimension 1..3 x horizon 1..3 (exhaustive) with per-item systems and costs - the batched solve
     # returns, item by item, the solve of that item alone (which the loop above compares with the KKT solution)
